@@ -206,6 +206,19 @@ func constStr(c cval) string {
 	return c.v.ExactString()
 }
 
+// unwrapConv: string(e) / []byte(e) around a call.
+func unwrapConv(e ast.Expr) ast.Expr {
+	if c, ok := e.(*ast.CallExpr); ok && len(c.Args) == 1 {
+		if id, ok := c.Fun.(*ast.Ident); ok && id.Name == "string" {
+			return c.Args[0]
+		}
+		if _, ok := c.Fun.(*ast.ArrayType); ok {
+			return c.Args[0]
+		}
+	}
+	return e
+}
+
 // returnCall: return f(...) where f returns state: bind, then return.
 func (t *tr) returnCall(x *ast.ReturnStmt, c *ast.CallExpr, fi *funcInfo, recvSrc string) string {
 	resT := splitTuple(fi.res)
@@ -222,9 +235,165 @@ func (t *tr) returnCall(x *ast.ReturnStmt, c *ast.CallExpr, fi *funcInfo, recvSr
 		ids = append(ids, id)
 	}
 	return t.bindCall(c, fi, recvSrc, lhs, true, func() string {
+		for i, id := range ids {
+			// string(f()) / []byte(f()): same representation
+			if v := t.lookup(id.(*ast.Ident).Name); v != nil && i < len(t.res) && coqType(v.typ) == coqType(t.res[i]) {
+				v.typ = t.res[i]
+			}
+		}
 		r := t.ret(&ast.ReturnStmt{Results: ids})
 		return wrapG(t.takeGuards(), r)
 	})
+}
+
+// isPkgErrVar: a package-level `var errX = errors.New("...")`.
+func (t *tr) isPkgErrVar(name string) bool {
+	for _, fn := range t.p.sortedFiles() {
+		for _, d := range t.p.files[fn].Decls {
+			gd, ok := d.(*ast.GenDecl)
+			if !ok || gd.Tok != token.VAR {
+				continue
+			}
+			for _, sp := range gd.Specs {
+				vs := sp.(*ast.ValueSpec)
+				for i, n := range vs.Names {
+					if n.Name != name || i >= len(vs.Values) {
+						continue
+					}
+					if c, ok := vs.Values[i].(*ast.CallExpr); ok {
+						src := t.p.src(c.Fun)
+						return src == "errors.New" || src == "fmt.Errorf"
+					}
+				}
+			}
+		}
+	}
+	return false
+}
+
+// bindName: the Coq name an assignment target gets (declaring it if asked).
+func (t *tr) bindName(n ast.Node, e ast.Expr, typ string, define bool) string {
+	id, ok := e.(*ast.Ident)
+	name := ""
+	if ok {
+		name = id.Name
+	} else if src := t.p.src(e); t.isState(src) {
+		name = src
+	} else {
+		t.fail(n, "assignment target")
+		return "GoUnknown"
+	}
+	if name == "_" {
+		return "_"
+	}
+	if define {
+		if _, here := t.scopes[len(t.scopes)-1][name]; !here {
+			return t.declare(name, typ)
+		}
+	}
+	v := t.lookup(name)
+	if v == nil {
+		t.fail(n, "assignment to an unknown variable")
+		return "GoUnknown"
+	}
+	return v.coq
+}
+
+// readerEffect: n, err := io.ReadFull(r, buf) / r.Read(buf) / io.ReadAll(r) /
+// io.CopyN(&bb, r, n) over an abstract reader.
+func (t *tr) readerEffect(c *ast.CallExpr, lhs []ast.Expr, define bool, rest func() string) (string, bool) {
+	if len(lhs) != 2 {
+		return "", false
+	}
+	fsrc := t.p.src(c.Fun)
+	sel, _ := c.Fun.(*ast.SelectorExpr)
+	var robj string
+	kind := ""
+	switch {
+	case fsrc == "io.ReadFull" && len(c.Args) == 2:
+		kind = "full"
+	case fsrc == "io.ReadAll" && len(c.Args) == 1:
+		kind = "all"
+	case fsrc == "io.CopyN" && len(c.Args) == 3:
+		kind = "copyn"
+	case sel != nil && sel.Sel.Name == "Read" && len(c.Args) == 1:
+		if o, k, ok := t.objectOf(sel.X); ok && k == "reader" {
+			kind, robj = "read", o
+		}
+	}
+	if kind == "" {
+		return "", false
+	}
+	if robj == "" {
+		ai := 0
+		if kind == "copyn" {
+			ai = 1
+		}
+		o, k, ok := t.objectOf(c.Args[ai])
+		if !ok || k != "reader" {
+			return "", false
+		}
+		robj = o
+	}
+	rd := t.objVar(robj, "rd")
+	got := t.fresh("got")
+	var code string
+	switch kind {
+	case "full", "read":
+		bi := 0
+		if kind == "full" {
+			bi = 1
+		}
+		barg := c.Args[bi]
+		if se, ok := barg.(*ast.SliceExpr); ok && se.Low == nil && se.High == nil {
+			barg = se.X
+		}
+		bid, ok := barg.(*ast.Ident)
+		bv := (*lvar)(nil)
+		if ok {
+			bv = t.lookup(bid.Name)
+		}
+		if bv == nil || bv.typ != tBytes {
+			t.fail(c, "the buffer of a read must be a []byte variable")
+			return "GoUnknown", true
+		}
+		fn := "io_ReadFull " + rd.coq + " (go_len " + bv.coq + ")"
+		if kind == "read" {
+			fn = "rd_read (Z.to_nat (go_len " + bv.coq + ")) " + rd.coq
+		}
+		errN := t.fresh("rerr")
+		code = "let '(" + got + ", " + errN + ", " + rd.coq + ") := " + fn + " in\n" +
+			"let " + bv.coq + " := (go_fill_buf " + bv.coq + " " + got + ") in\n"
+		nN := t.bindName(c, lhs[0], "int", define)
+		eN := t.bindName(c, lhs[1], tErr, define)
+		code += "let " + nN + " := (go_len " + got + ") in\nlet " + eN + " := " + errN + " in\n"
+	case "all":
+		errN := t.fresh("rerr")
+		bN := t.bindName(c, lhs[0], tBytes, define)
+		eN := t.bindName(c, lhs[1], tErr, define)
+		code = "let '(" + bN + ", " + errN + ", " + rd.coq + ") := io_ReadAll " + rd.coq + " in\nlet " + eN + " := " + errN + " in\n"
+	case "copyn":
+		ue, ok := c.Args[0].(*ast.UnaryExpr)
+		var bb *lvar
+		if ok && ue.Op == token.AND {
+			if id, ok := ue.X.(*ast.Ident); ok {
+				bb = t.lookup(id.Name)
+			}
+		}
+		if bb == nil || bb.typ != "buffer" {
+			t.fail(c, "io.CopyN into something else than a local bytes.Buffer")
+			return "GoUnknown", true
+		}
+		n := t.exprAs(c.Args[2], "int64")
+		errN := t.fresh("rerr")
+		code = "let '(" + got + ", " + errN + ", " + rd.coq + ") := io_CopyN " + rd.coq + " " + n + " in\n" +
+			"let " + bb.coq + " := (" + bb.coq + " ++ " + got + ") in\n"
+		mN := t.bindName(c, lhs[0], "int64", define)
+		eN := t.bindName(c, lhs[1], tErr, define)
+		code += "let " + mN + " := (go_len " + got + ") in\nlet " + eN + " := " + errN + " in\n"
+	}
+	gs := t.takeGuards()
+	return wrapG(gs, code+rest()), true
 }
 
 // fieldOfLit: the value given to field cfg.retField in &T{...} / T{...}.
@@ -248,6 +417,9 @@ func (t *tr) fieldOfLit(e ast.Expr) ast.Expr {
 
 // libEffect: library procedures on abstract readers / writers (filled in below).
 func (t *tr) libEffect(c *ast.CallExpr, lhs []ast.Expr, define bool, rest func() string) (string, bool) {
+	if code, ok := t.readerEffect(c, lhs, define, rest); ok {
+		return code, true
+	}
 	sel, ok := c.Fun.(*ast.SelectorExpr)
 	if !ok {
 		return "", false
